@@ -2,7 +2,7 @@
 import z3
 
 from vc.engine import Contract, Case
-from vc.pyvc import Z, PyRaise, Env, Foreign, is_native
+from vc.pyvc import Z, PyRaise, Env, Foreign, is_native, _Continue, _Break
 from vc.sorts import CheckerError
 
 REL = 'depccg/parsing.py'
@@ -220,6 +220,33 @@ class SymEnumCategories:
     def __init__(self, cats):
         self.cats = cats
 
+    def _contract(self, I, node):
+        # contract of {cat: index for index, cat in enumerate(categories)} / the equivalent loop (later entries overwrite earlier ones):
+        # the category at position j maps to a position >= j holding the same category
+        j = z3.Int('j!dc')
+        nt = self.cats.nt
+        k = IDX(CATAT(j))
+        I.ctx.assume(z3.ForAll([j], z3.Implies(z3.And(j >= 0, j < nt), z3.And(k >= j, k < nt, CATAT(k) == CATAT(j))), patterns=[CATAT(j)]))
+        inv = z3.ForAll([j], z3.Implies(z3.And(j >= 0, j < nt), IDX(CATAT(j)) == j), patterns=[CATAT(j)])
+        I.oblige('lemma', inv, node, extra='idx-inverse: with pairwise different categories, category_ids[categories[j]] = j')
+        I.ctx.assume(inv)
+        return SymIndexMap(self.cats)
+
+    def for_loop(self, I, st, env, module, qual):
+        p = I.fresh('category_position', I_)
+        holder = {}
+
+        def bind():
+            I.ctx.assume(z3.And(p >= 0, p < self.cats.nt))
+            I.assign(st.target, (Z(p), Z(CATAT(p))), env, module)
+
+        def finish(k, v):
+            ok = isinstance(k, Z) and isinstance(v, Z) and z3.is_true(z3.simplify(k.e == CATAT(p))) and z3.is_true(z3.simplify(v.e == p))
+            if not ok:
+                raise CheckerError('loop over enumerate(categories) does not store category -> index')
+            return self._contract(I, st)
+        _fill_loop(I, st, env, module, qual, bind, finish)
+
     def dict_comprehension(self, I, e, env, module):
         import ast
         g = e.generators[0]
@@ -228,16 +255,63 @@ class SymEnumCategories:
               and isinstance(e.key, ast.Name) and isinstance(e.value, ast.Name) and e.key.id == g.target.elts[1].id and e.value.id == g.target.elts[0].id)
         if not ok:
             raise CheckerError('dict comprehension over enumerate(categories) is not {cat: index for index, cat in enumerate(categories)}')
-        # contract of the comprehension (later entries overwrite earlier ones): the category at position j maps to a position >= j holding the same category
-        j = z3.Int('j!dc')
-        nt = self.cats.nt
-        k = IDX(CATAT(j))
-        I.ctx.assume(z3.ForAll([j], z3.Implies(z3.And(j >= 0, j < nt), z3.And(k >= j, k < nt, CATAT(k) == CATAT(j))), patterns=[CATAT(j)]))
-        # with pairwise different categories: the position itself (lemma idx-inverse: obliged, then used)
-        inv = z3.ForAll([j], z3.Implies(z3.And(j >= 0, j < nt), IDX(CATAT(j)) == j), patterns=[CATAT(j)])
-        I.oblige('lemma', inv, e, extra='idx-inverse: with pairwise different categories, category_ids[categories[j]] = j')
-        I.ctx.assume(inv)
-        return SymIndexMap(self.cats)
+        return self._contract(I, e)
+
+
+class RecDict:
+    """an empty dict that a loop over a symbolic collection fills: the one store of the arbitrary iteration is recorded"""
+    def __init__(self):
+        self.stores = []
+
+    def setitem(self, I, k, v, node):
+        self.stores.append((k, v))
+
+    def getitem(self, I, k, node):
+        raise CheckerError('a dictionary being filled by the loop is read inside the loop')
+
+    def contains(self, I, item, node):
+        raise CheckerError('a dictionary being filled by the loop is queried inside the loop')
+
+
+def _empty_dicts(env):
+    """names (searched through the enclosing scopes of the function) bound to an empty concrete dict: candidates for being filled by a loop"""
+    out = {}
+    e = env
+    while e is not None and e.parent is not None:
+        for k, v in e.vars.items():
+            if isinstance(v, dict) and not v and k not in out:
+                out[k] = e
+        e = e.parent
+    return out
+
+
+def _fill_loop(I, st, env, module, qual, bind, finish):
+    """`for <target> in <symbolic collection>: D[key] = value` (D an empty dict before the loop): the body runs once for an ARBITRARY element with local
+    assumptions; D becomes the symbolic map finish(key, value) describes.  The comprehension form and the loop form of the same map meet here."""
+    if st.orelse:
+        raise CheckerError('for/else')
+    cands = _empty_dicts(env)
+    for name, scope in cands.items():
+        scope.vars[name] = RecDict()
+    n0 = len(I.ctx.pc)
+    bind()
+    try:
+        I.exec_block(st.body, env, module, qual)
+    except _Continue:
+        pass
+    except _Break:
+        raise CheckerError('break in a loop that fills a dictionary')
+    del I.ctx.pc[n0:]
+    for name, scope in cands.items():
+        rd = scope.vars[name]
+        if not isinstance(rd, RecDict):
+            raise CheckerError('a dictionary candidate was rebound inside the loop')
+        if not rd.stores:
+            scope.vars[name] = {}
+        elif len(rd.stores) == 1:
+            scope.vars[name] = finish(*rd.stores[0])
+        else:
+            raise CheckerError('a loop over a symbolic collection stores twice into one dictionary')
 
 
 class SymIndexMap:
@@ -323,6 +397,23 @@ class SymWordItems:
         return SymMaskDict(w, v)
 
 
+def _word_items_for_loop(self, I, st, env, module, qual):
+    w = I.fresh('dict_word', I_)
+
+    def bind():
+        I.ctx.assume(INDICT(w))
+        I.assign(st.target, (Z(w), SymCatsOf(w)), env, module)
+
+    def finish(k, v):
+        if not (isinstance(k, Z) and z3.is_true(z3.simplify(k.e == w)) and isinstance(v, NPMask)):
+            raise CheckerError('loop over category_dict.items() does not store word -> mask')
+        return SymMaskDict(w, v)
+    _fill_loop(I, st, env, module, qual, bind, finish)
+
+
+SymWordItems.for_loop = _word_items_for_loop
+
+
 class SymMaskDict:
     """the rebuilt category_dict: same keys; the mask of the arbitrary key w0 is known, the mask of any other key is that mask with w0 renamed"""
     def __init__(self, w0, mask0):
@@ -405,7 +496,10 @@ class SymSentenceLoop:
         I.ctx.assume(z3.And(s >= 0, s < self.doc.ns, SLEN(s) >= 0))
         self.scores.iter_s = s
         I.assign(st.target, (SymSentence(s), SymScoreResult(self.scores, s)), env, module)
-        I.exec_block(st.body, env, module, qual)
+        try:
+            I.exec_block(st.body, env, module, qual)
+        except _Continue:
+            pass
 
 
 class SymSentence:
@@ -428,7 +522,10 @@ class SymTokenLoop:
         I.ctx.assume(z3.And(i >= 0, i < SLEN(self.s)))
         I.ctx.iter_i = i
         I.assign(st.target, (Z(i), SymTok(self.s, i)), env, module)
-        I.exec_block(st.body, env, module, qual)
+        try:
+            I.exec_block(st.body, env, module, qual)
+        except _Continue:
+            pass
 
 
 class SymTok:
